@@ -20,10 +20,12 @@ import (
 	"sort"
 	"strings"
 	"time"
+	"unsafe"
 
 	"github.com/gopcua/opcua"
 	"github.com/gopcua/opcua/ua"
 	"github.com/gopcua/opcua/uacp"
+	"github.com/gopcua/opcua/uasc"
 
 	"verifharness/keys"
 	"verifharness/vfgo"
@@ -34,8 +36,15 @@ type opt struct {
 	V int    `json:"v"`
 }
 
+type tok struct {
+	Ty  string `json:"ty"`
+	Pid int    `json:"pid"`
+	Val int    `json:"val"`
+}
+
 type view struct {
 	Ack map[string]int `json:"ack"`
+	Tok tok            `json:"tok"`
 	V   map[string]int `json:"v"`
 }
 
@@ -52,8 +61,11 @@ type event struct {
 	Ack  map[string]int `json:"ack,omitempty"`
 }
 
+// Pool = the option objects of the program (each built exactly once), Prog = per construction
+// the indices (1-based) of the option objects applied, in order.
 type row struct {
-	Prog [][]opt `json:"prog"`
+	Pool []opt   `json:"pool"`
+	Prog [][]int `json:"prog"`
 	Hist []event `json:"hist"`
 	Asis []event `json:"asis,omitempty"`
 }
@@ -84,7 +96,77 @@ var (
 	prods   = []string{"urn:gopcua", "urn:prod:one", "urn:prod:two"}
 	auths   = []string{"", ua.SecurityPolicyURIPrefix + "Basic256", ua.SecurityPolicyURIPrefix + "Basic128Rsa15"}
 	certs   = []*keys.Pair{nil, keys.Get("2048a"), keys.Get("2048b")}
+	users   = []string{"", "alice", "bob"}
+	pws     = []string{"", "pw-alice", "pw-bob"}
+	anames  = []string{"gopcua - OPC UA implementation in Go", "app-one", "app-two"}
+	issued  = []string{"", "tokdata-one", "tokdata-two"}
+	tokKind = []string{"", "anon", "user", "cert"}
 )
+
+func certID(b []byte) string {
+	if len(b) == 0 {
+		return ""
+	}
+	return fmt.Sprintf("%d:%x", len(b), b[len(b)-8:])
+}
+
+func keyID(k any) string {
+	for i := 1; i <= 2; i++ {
+		if k == any(certs[i].Key) {
+			return certs[i].Name
+		}
+	}
+	return "other"
+}
+
+// policy id index of the specification -> string
+func pidStr(i int) string {
+	switch {
+	case i == 0:
+		return ""
+	case i >= 100:
+		return fmt.Sprintf("custom-%d", i-100)
+	case i/10 >= 1 && i/10 <= 2 && i%10 >= 1 && i%10 <= 3:
+		return fmt.Sprintf("ep%d-%s", i/10, tokKind[i%10])
+	}
+	return fmt.Sprintf("<no policy id %d>", i)
+}
+
+// concrete identity token of the specification's (ty, pid, val)
+func expTok(t tok) map[string]string {
+	r := map[string]string{"ty": t.Ty, "pid": pidStr(t.Pid), "val": ""}
+	at := t.Val >= 0 && t.Val <= 2
+	switch t.Ty {
+	case "none":
+		r["pid"] = ""
+	case "user":
+		if at {
+			r["val"] = users[t.Val]
+		}
+	case "cert":
+		if at && t.Val > 0 {
+			r["val"] = certID(certs[t.Val].Cert)
+		}
+	case "issued":
+		if at {
+			r["val"] = issued[t.Val]
+		}
+	}
+	return r
+}
+
+func endpoint(v int) *ua.EndpointDescription {
+	var toks []*ua.UserTokenPolicy
+	for k, tt := range []ua.UserTokenType{ua.UserTokenTypeAnonymous, ua.UserTokenTypeUserName, ua.UserTokenTypeCertificate} {
+		toks = append(toks, &ua.UserTokenPolicy{PolicyID: pidStr(10*v + k + 1), TokenType: tt, SecurityPolicyURI: auths[v]})
+	}
+	return &ua.EndpointDescription{
+		EndpointURL:        "opc.tcp://127.0.0.1:4840",
+		SecurityPolicyURI:  ua.SecurityPolicyURIPrefix + polNames[v],
+		SecurityMode:       modes[v],
+		UserIdentityTokens: toks,
+	}
+}
 
 // concrete renders the concrete value the table assigns to (field, index) as a comparable string.
 func concrete(f string, i int) string {
@@ -142,6 +224,28 @@ func concrete(f string, i int) string {
 		if at(3) {
 			return auths[i]
 		}
+	case "pw":
+		if at(3) {
+			return pws[i]
+		}
+	case "aname":
+		if at(3) {
+			return anames[i]
+		}
+	case "rcert":
+		if at(3) {
+			if i == 0 {
+				return ""
+			}
+			return certID(certs[i].Cert)
+		}
+	case "ukey":
+		if at(3) {
+			if i == 0 {
+				return ""
+			}
+			return certs[i].Name
+		}
 	}
 	return bad
 }
@@ -191,15 +295,27 @@ func option(o opt) (opcua.Option, error) {
 	case "Certificate":
 		return opcua.Certificate(certs[v].Cert), nil
 	case "SecurityFromEndpoint":
-		ep := &ua.EndpointDescription{
-			EndpointURL:       "opc.tcp://127.0.0.1:4840",
-			SecurityPolicyURI: ua.SecurityPolicyURIPrefix + polNames[v],
-			SecurityMode:      modes[v],
-			UserIdentityTokens: []*ua.UserTokenPolicy{{
-				PolicyID: "anon", TokenType: ua.UserTokenTypeAnonymous, SecurityPolicyURI: auths[v],
-			}},
-		}
-		return opcua.SecurityFromEndpoint(ep, ua.UserTokenTypeAnonymous), nil
+		return opcua.SecurityFromEndpoint(endpoint(v), ua.UserTokenTypeAnonymous), nil
+	case "SecurityFromEndpointUser":
+		return opcua.SecurityFromEndpoint(endpoint(v), ua.UserTokenTypeUserName), nil
+	case "SecurityFromEndpointCert":
+		return opcua.SecurityFromEndpoint(endpoint(v), ua.UserTokenTypeCertificate), nil
+	case "AuthAnonymous":
+		return opcua.AuthAnonymous(), nil
+	case "AuthUsername":
+		return opcua.AuthUsername(users[v], pws[v]), nil
+	case "AuthCertificate":
+		return opcua.AuthCertificate(certs[v].Cert), nil
+	case "AuthIssuedToken":
+		return opcua.AuthIssuedToken([]byte(issued[v])), nil
+	case "AuthPolicyID":
+		return opcua.AuthPolicyID(pidStr(100 + v)), nil
+	case "AuthPrivateKey":
+		return opcua.AuthPrivateKey(certs[v].Key), nil
+	case "ApplicationName":
+		return opcua.ApplicationName(anames[v]), nil
+	case "RemoteCertificate":
+		return opcua.RemoteCertificate(certs[v].Cert), nil
 	case "OwnDialer":
 		return opcua.Dialer(&uacp.Dialer{
 			Dialer: &net.Dialer{Timeout: durs["dt"][v]},
@@ -214,7 +330,37 @@ func option(o opt) (opcua.Option, error) {
 
 type cview struct {
 	Ack map[string]string `json:"ack"`
+	Tok map[string]string `json:"tok,omitempty"`
 	V   map[string]string `json:"v,omitempty"`
+}
+
+// configs reaches the client's session and secure channel configuration (unexported fields of
+// opcua.Client / opcua.Config; the types themselves are exported by uasc).
+func configs(c *opcua.Client) (*uasc.SessionConfig, *uasc.Config) {
+	field := func(v reflect.Value, name string) reflect.Value {
+		f := v.Elem().FieldByName(name)
+		return reflect.NewAt(f.Type(), unsafe.Pointer(f.UnsafeAddr())).Elem()
+	}
+	cfg := field(reflect.ValueOf(c), "cfg")
+	ss, _ := field(cfg, "session").Interface().(*uasc.SessionConfig)
+	sc, _ := field(cfg, "sechan").Interface().(*uasc.Config)
+	return ss, sc
+}
+
+func obsTok(t any) map[string]string {
+	switch x := t.(type) {
+	case nil:
+		return map[string]string{"ty": "none", "pid": "", "val": ""}
+	case *ua.AnonymousIdentityToken:
+		return map[string]string{"ty": "anon", "pid": x.PolicyID, "val": ""}
+	case *ua.UserNameIdentityToken:
+		return map[string]string{"ty": "user", "pid": x.PolicyID, "val": x.UserName}
+	case *ua.X509IdentityToken:
+		return map[string]string{"ty": "cert", "pid": x.PolicyID, "val": certID(x.CertificateData)}
+	case *ua.IssuedIdentityToken:
+		return map[string]string{"ty": "issued", "pid": x.PolicyID, "val": string(x.TokenData)}
+	}
+	return map[string]string{"ty": fmt.Sprintf("%T", t), "pid": "", "val": ""}
 }
 
 func ackOf(a uacp.Acknowledge) map[string]string {
@@ -224,7 +370,23 @@ func ackOf(a uacp.Acknowledge) map[string]string {
 
 func observe(c *opcua.Client) cview {
 	s := opcua.VerifConfig(c)
-	return cview{Ack: ackOf(s.ClientACK), V: map[string]string{
+	ss, sc := configs(c)
+	pw, aname, rcert, ukey := "<no session config>", "", "<no channel config>", ""
+	var token any
+	if ss != nil {
+		pw, token = ss.AuthPassword, ss.UserIdentityToken
+		if ss.ClientDescription != nil && ss.ClientDescription.ApplicationName != nil {
+			aname = ss.ClientDescription.ApplicationName.Text
+		}
+	}
+	if sc != nil {
+		rcert = certID(sc.RemoteCertificate)
+		if sc.UserKey != nil {
+			ukey = keyID(sc.UserKey)
+		}
+	}
+	return cview{Ack: ackOf(s.ClientACK), Tok: obsTok(token), V: map[string]string{
+		"pw": pw, "aname": aname, "rcert": rcert, "ukey": ukey,
 		"dt": s.DialTimeout.String(), "pol": s.SecurityPolicyURI, "mode": s.SecurityMode.String(),
 		"life": (time.Duration(s.Lifetime) * time.Millisecond).String(), "rt": s.RequestTimeout.String(),
 		"ar": fmt.Sprint(s.AutoReconnect), "ri": s.ReconnectInterval.String(), "cert": fmt.Sprint(s.CertLen),
@@ -241,7 +403,7 @@ func expAck(m map[string]int) map[string]string {
 	return r
 }
 
-func expView(v view) cview { return cview{Ack: expAck(v.Ack), V: expAck(v.V)} }
+func expView(v view) cview { return cview{Ack: expAck(v.Ack), Tok: expTok(v.Tok), V: expAck(v.V)} }
 
 type obsEvent struct {
 	Ev    string            `json:"ev"`
@@ -310,6 +472,9 @@ func firstDiff(obs, exp []obsEvent) (where, kind, field string) {
 			if d, bad := cmp(o.Cl[c].Ack, e.Cl[c].Ack); bad {
 				return pre + fmt.Sprintf("client %d handshake setting ", c+1) + d, kind, strings.SplitN(d, ":", 2)[0]
 			}
+			if d, bad := cmp(o.Cl[c].Tok, e.Cl[c].Tok); bad {
+				return pre + fmt.Sprintf("client %d user identity token ", c+1) + d, kind, "token-" + strings.SplitN(d, ":", 2)[0]
+			}
 			if d, bad := cmp(o.Cl[c].V, e.Cl[c].V); bad {
 				return pre + fmt.Sprintf("client %d ", c+1) + d, kind, strings.SplitN(d, ":", 2)[0]
 			}
@@ -319,6 +484,9 @@ func firstDiff(obs, exp []obsEvent) (where, kind, field string) {
 		}
 		if d, bad := cmp(o.Fresh.Ack, e.Fresh.Ack); bad {
 			return pre + "option-less client created afterwards: " + d, "later-client-default-changed", strings.SplitN(d, ":", 2)[0]
+		}
+		if d, bad := cmp(o.Fresh.Tok, e.Fresh.Tok); bad {
+			return pre + "option-less client created afterwards: user identity token " + d, "later-client-default-changed", "token-" + strings.SplitN(d, ":", 2)[0]
 		}
 		if d, bad := cmp(o.Fresh.V, e.Fresh.V); bad {
 			return pre + "option-less client created afterwards: " + d, "later-client-default-changed", strings.SplitN(d, ":", 2)[0]
@@ -411,9 +579,9 @@ func isPristine(url string) bool {
 		return false
 	}
 	o := observe(c)
-	e := expView(view{Ack: map[string]int{"rb": 0, "sb": 0, "mm": 0, "mc": 0}, V: map[string]int{
+	e := expView(view{Ack: map[string]int{"rb": 0, "sb": 0, "mm": 0, "mc": 0}, Tok: tok{Ty: "none"}, V: map[string]int{
 		"dt": 0, "pol": 0, "mode": 0, "life": 0, "rt": 0, "ar": 0, "ri": 0, "cert": 0, "key": 0,
-		"st": 0, "sn": 0, "loc": 0, "app": 0, "prod": 0, "auth": 0}})
+		"st": 0, "sn": 0, "loc": 0, "app": 0, "prod": 0, "auth": 0, "pw": 0, "aname": 0, "rcert": 0, "ukey": 0}})
 	return reflect.DeepEqual(o, e)
 }
 
@@ -427,10 +595,23 @@ type outcome struct {
 
 func classOf(r row) string {
 	var parts []string
+	used := map[int]int{}
+	for _, os := range r.Prog {
+		for _, j := range os {
+			used[j]++
+		}
+	}
 	for _, os := range r.Prog {
 		var ns []string
-		for _, o := range os {
-			ns = append(ns, o.O)
+		for _, j := range os {
+			n := "?"
+			if j >= 1 && j <= len(r.Pool) {
+				n = r.Pool[j-1].O
+			}
+			if used[j] > 1 {
+				n += "*" // the same option object is applied more than once
+			}
+			ns = append(ns, n)
 		}
 		parts = append(parts, strings.Join(ns, "+"))
 	}
@@ -441,14 +622,22 @@ func runProgram(r row, sink *helloSink) outcome {
 	class := classOf(r)
 	var clients []*opcua.Client
 	var obs []obsEvent
+	// every option object of the program is built exactly once
+	pool := make([]opcua.Option, len(r.Pool))
+	for j, o := range r.Pool {
+		f, err := option(o)
+		if err != nil {
+			return outcome{Status: "inconclusive", Detail: err.Error()}
+		}
+		pool[j] = f
+	}
 	for ci, os := range r.Prog {
 		var opts []opcua.Option
-		for _, o := range os {
-			f, err := option(o)
-			if err != nil {
-				return outcome{Status: "inconclusive", Detail: err.Error()}
+		for _, j := range os {
+			if j < 1 || j > len(pool) {
+				return outcome{Status: "inconclusive", Detail: fmt.Sprintf("option object %d of %d", j, len(pool))}
 			}
-			opts = append(opts, f)
+			opts = append(opts, pool[j-1])
 		}
 		var c *opcua.Client
 		var err error
@@ -519,7 +708,7 @@ func main() {
 	}
 	tainted, nviol := 0, 0
 	for _, r := range vfgo.Cases[row]() {
-		small := row{Prog: r.Prog}
+		small := row{Pool: r.Pool, Prog: r.Prog}
 		pristine()
 		var out outcome
 		if tainted > 40 && nviol > 20 {
